@@ -84,6 +84,21 @@ class BadRepr(object):
         raise RuntimeError('repr failed')
 
 
+FLAKY = {'broken': False}
+
+
+class FlakyRepr(object):
+    """A resource that cannot describe itself for a while (a connection pool before the database is up) and can later."""
+
+    def __init__(self, text):
+        self.text = text
+
+    def __repr__(self):
+        if FLAKY['broken']:
+            raise RuntimeError('repr failed')
+        return '<pool %s>' % self.text
+
+
 class BadReprQuoting(object):
     """repr() fails -- and the error text quotes the value (like int(value, 16) on a token does)"""
     def __init__(self, text):
@@ -142,6 +157,8 @@ def make_value(kind, marker):
         return marker + '-' + 'x' * 200
     if kind == 'badrepr':
         return BadRepr()
+    if kind == 'flaky':
+        return FlakyRepr(marker)
     if kind == 'badrepr-http':
         return BadReprHTTP()
     if kind == 'badrepr-quoting':
@@ -203,7 +220,7 @@ class C18(Check):
     level_text = ('Single host-call faults are enumerated completely (every call site x every documented exception and unusual '
                   'value, both views) on a fixed host; host applications and multi-fault plans are sampled.')
     level_note = 'Trusted: the catalogue of what each host call can raise/return (sim/core/hoststub.py).'
-    required_probes = ('two-clients-on-a-fresh-host', 'host-context-processor-requires-a-secret-resource', 'endpoint-with-unserialisable-defaults', 'equal-but-different-values-listed', 'cookie-key-given-as-text', 'tuple-valued-resource', 'secret-resource-with-failing-repr', 'host-context-names-clash-with-meta-working-names', 'sibling-section-cannot-be-computed', 'host-shares-middleware-type-with-meta', 'secret-redacted-html', 'secret-redacted-json', 'fault-fired-page-200', 'all-calls-failing', 'depth-2',
+    required_probes = ('failure-report-compared-with-a-fresh-twin', 'section-computable-again-after-it-failed', 'two-clients-on-a-fresh-host', 'host-context-processor-requires-a-secret-resource', 'endpoint-with-unserialisable-defaults', 'equal-but-different-values-listed', 'cookie-key-given-as-text', 'tuple-valued-resource', 'secret-resource-with-failing-repr', 'host-context-names-clash-with-meta-working-names', 'sibling-section-cannot-be-computed', 'host-shares-middleware-type-with-meta', 'secret-redacted-html', 'secret-redacted-json', 'fault-fired-page-200', 'all-calls-failing', 'depth-2',
                        'plain-visible', 'bad-repr-section-inline', 'cookie-mw-present')
 
     # ---- generation --------------------------------------------------------
@@ -214,7 +231,9 @@ class C18(Check):
             rng.shuffle(names)
             for n in names[:nmax]:
                 kind = rng.choice(VALUE_KINDS)
-                if n in PLAIN_NAMES and rng.random() < 0.15:
+                if n in PLAIN_NAMES and rng.random() < 0.1:
+                    kind = 'flaky'
+                elif n in PLAIN_NAMES and rng.random() < 0.15:
                     kind = rng.choice(['badrepr', 'badrepr-http', 'badrepr-quoting', 'badrepr-surrogate', 'badrepr-badstr', 'badrepr-self', 'badrepr-self'])
                 elif n in SECRET_NAMES and rng.random() < 0.2:
                     # a secret whose repr() would fail: nobody has any business calling it
@@ -250,6 +269,9 @@ class C18(Check):
         for _ in range(rng.randint(4, 12)):
             n = 0 if fault_free else frng.choice([0, 1, 1, 2, 3, 6, 40])
             ops.append({'view': rng.choice(['html', 'json']), 'faults': self.gen_faults(frng, n)})
+            if any(r['kind'] == 'flaky' for r in cfg['resources']):
+                # (a resource that cannot describe itself during some requests and can during the others)
+                ops[-1]['flaky_broken'] = rng.random() < 0.4
         return {'world': 'meta', 'seed': seed, 'config': cfg, 'ops': ops}
 
     def extra_plans(self, tier, base_seed):
@@ -448,6 +470,9 @@ class C18(Check):
             if cfg.get('ctx_requires') and any('secret' in r['name'] and r['name'].replace('_', 'a').isalnum() for r in cfg['resources']):
                 res.probe('host-context-processor-requires-a-secret-resource')
             for step, op in enumerate(plan['ops']):
+                FLAKY['broken'] = bool(op.get('flaky_broken'))
+                if step and not FLAKY['broken'] and plan['ops'][step - 1].get('flaky_broken'):
+                    res.probe('section-computable-again-after-it-failed')
                 stub.set_faults(op['faults'])
                 path = base + ('json/' if op['view'] == 'json' else '')
                 ex = call_app(app, make_environ('GET', path, headers={'Accept': 'text/html'}))
@@ -482,10 +507,30 @@ class C18(Check):
                     res.violate(K + 'cookie-key-disclosed:%s' % op['view'], ctx, step)
                     break
                 # --- redaction markers / visibility of the serving application's resources ---
-                bad = self.check_resources(op['view'], body, serving, res)
+                now = dict((n, (('badrepr' if FLAKY['broken'] else 'flaky-ok') if k == 'flaky' else k, m)) for n, (k, m) in serving.items())
+                bad = self.check_resources(op['view'], body, now, res)
                 if bad:
                     res.violate(K + bad[0] + ':' + op['view'], ctx + ' -> ' + bad[1], step)
                     break
+                # --- what is reported as failed is about THIS request: after a request in which something could not be
+                # computed, a request in which everything can be is answered like a freshly built twin of the host answers it
+                prev = plan['ops'][step - 1] if step else None
+                if (prev is not None and (prev.get('flaky_broken') or prev['faults']) and not FLAKY['broken'] and not fired
+                        and op['view'] == 'json'):
+                    twin, tbase, _, _ = self.build(cfg)
+                    tex = call_app(twin, make_environ('GET', tbase + 'json/', headers={'Accept': 'text/html'}))
+                    try:
+                        mine = sorted(g for g, v in json.loads(body).items() if isinstance(v, dict) and 'exc_content' in v)
+                        fresh = sorted(g for g, v in json.loads(tex.body.decode('utf8', 'replace')).items() if isinstance(v, dict) and 'exc_content' in v)
+                    except ValueError:
+                        mine = fresh = None
+                    if mine is not None:
+                        res.probe('failure-report-compared-with-a-fresh-twin')
+                        if mine != fresh:
+                            res.violate(K + 'stale-failure-report:json', ctx + ' -> groups reported as failed: %s; a freshly built host with the same '
+                                        'configuration reports %s (the earlier request failed there, this one does not)' % (mine, fresh), step)
+                            break
+        FLAKY['broken'] = False
         res.steps = len(plan['ops'])
         return res
 
